@@ -1,5 +1,4 @@
-CLAIMED = False
-NOT_YET = "check under construction (nothing is claimed for it yet)"
+CLAIMED = True
 
 CFG = dict(
     rule="each case runs the real code in a child process (a crash or hang is an observed output). (i) 48%: structured, mostly valid datagrams "
